@@ -571,9 +571,9 @@ mod verif_replay {
         dump("pre", &mut w);
         w.writer.arm(%(fault_at)d, vec![%(shorts)s]);
         %(op)s
-        println!("VR fired={}", if w.writer.fault_at >= 0 && w.writer.ops > w.writer.fault_at { 1 } else { 0 });
         w.writer.armed = false;
         dump("post", &mut w);
+        println!("VR fired={}", if w.writer.fault_at >= 0 && w.writer.ops > w.writer.fault_at { 1 } else { 0 });
         std::mem::forget(w);
     }
 }
@@ -656,7 +656,7 @@ class WriterReplay:
         info = dict(pre={k: (v.hex() if isinstance(v, bytes) and len(v) <= 64 else (len(v) if isinstance(v, bytes) else v)) for k, v in pre.items()}, rust=code)
         pan = native_panicked(out)
         if claim_name == "no panic":
-            return (pan is not None and "pre_offset" in kv), "native: " + (pan or "no panic"), info
+            return (pan is not None and "pre_offset" in kv), "native: " + (pan or ("no panic" if "pre_offset" in kv else "the native driver did not run (compile error?): " + out[-300:].replace("\n", " "))), info
         if pan or "post_offset" not in kv:
             return False, "native run did not complete: " + (pan or out[-400:]), info
         try:
@@ -784,8 +784,8 @@ mod verif_replay {
         dump("pre", &r);
         r.reader.arm(%(fault_at)d, vec![%(shorts)s]);
         %(op)s
-        println!("VR fired={}", if r.reader.fault_at >= 0 && r.reader.ops > r.reader.fault_at { 1 } else { 0 });
         dump("post", &r);
+        println!("VR fired={}", if r.reader.fault_at >= 0 && r.reader.ops > r.reader.fault_at { 1 } else { 0 });
     }
 }
 """
@@ -835,7 +835,7 @@ class ReaderReplay:
         info = dict(pre={k: (len(v) if isinstance(v, bytes) else v) for k, v in pre.items()}, rust=code)
         pan = native_panicked(out)
         if claim_name == "no panic":
-            return (pan is not None and "pre_offset" in kv), "native: " + (pan or "no panic"), info
+            return (pan is not None and "pre_offset" in kv), "native: " + (pan or ("no panic" if "pre_offset" in kv else "the native driver did not run (compile error?): " + out[-300:].replace("\n", " "))), info
         if pan or "post_offset" not in kv:
             return False, "native run did not complete: " + (pan or out[-400:]), info
         try:
@@ -1059,7 +1059,7 @@ class HistoryReplay:
         info = dict(pre={k: (len(v) if isinstance(v, bytes) else v) for k, v in pre.items()}, rust=code)
         pan = native_panicked(out)
         if claim_name == "no panic":
-            return (pan is not None), "native: " + (pan or "no panic"), info
+            return (pan is not None), "native: " + (pan or ("no panic" if "pre_offset" in kv else "the native driver did not run (compile error?): " + out[-300:].replace("\n", " "))), info
         if pan or "dev" not in kv:
             return False, "native run did not complete: " + (pan or out[-400:]), info
         lp = pre["p"] - 4 * (pre["p"] // PAGE)
@@ -1367,7 +1367,7 @@ class ReaderHistoryReplay:
         info = dict(pre={k: (len(v) if isinstance(v, bytes) else v) for k, v in pre.items() if k != "ops"}, ops=[(o_["p"], o_["n"]) for o_ in pre["ops"]], rust=code)
         pan = native_panicked(out)
         if claim_name == "no panic":
-            return (pan is not None), "native: " + (pan or "no panic"), info
+            return (pan is not None), "native: " + (pan or ("no panic" if "pre_offset" in kv else "the native driver did not run (compile error?): " + out[-300:].replace("\n", " "))), info
         if pan or "post_offset" not in kv:
             return False, "native run did not complete: " + (pan or out[-400:]), info
         try:
